@@ -93,6 +93,12 @@ func Harness_C11_XSDExtensions() {
 	default:
 		derived = elems + attrs
 	}
+	// a second complex type whose name differs from Base only in letter case
+	twin := nd.Bool("type-named-base-in-lower-case")
+	twinDoc := ""
+	if twin {
+		twinDoc = `<xs:complexType name="base"><xs:sequence><xs:element name="other" type="xs:integer"/></xs:sequence></xs:complexType>` + "\n"
+	}
 	doc := `<?xml version="1.0"?>
 <xs:schema xmlns:xs="http://www.w3.org/2001/XMLSchema">
 <xs:complexType name="Base"><xs:sequence>
@@ -101,7 +107,7 @@ func Harness_C11_XSDExtensions() {
 </xs:sequence></xs:complexType>
 <xs:complexType name="Derived">
 ` + derived + `</xs:complexType>
-</xs:schema>
+` + twinDoc + `</xs:schema>
 `
 	logger := logrus.New()
 	imp := MakeXSDImporter(logger)
@@ -125,6 +131,13 @@ func Harness_C11_XSDExtensions() {
 	typ, ok = c11FieldLine(base, "note")
 	nd.Assert("xsd:base-element-optional-iff-minOccurs-0", ok && (typ == "string?") == baseOpt && (typ == "string") == !baseOpt)
 
+	if twin {
+		tw, tk := c11Block(out, "base")
+		typ, ok := c11FieldLine(tw, "other")
+		nd.Assert("xsd:types-differing-only-in-case-are-both-declared", tk == "type" && ok && typ == "int")
+		_, leaked := c11FieldLine(base, "other")
+		nd.Assert("xsd:types-differing-only-in-case-stay-apart", !leaked)
+	}
 	der, dk := c11Block(out, "Derived")
 	nd.Assert("xsd:derived-type-declared", dk != "")
 	own := nAttr + nElem
